@@ -121,6 +121,8 @@ def run_impl(pym, grid, direction, ns, p, k, eps, x, w):
 
 
 def run_part(ctx, pym):
+    import time
+    t_start = time.time()
     rng = ctx.rng
     quick = ctx.quick()
     ctx.rule += (' (e) OverhangFilter: the real module (response, then sensitivity with a random seed) on rational instances '
@@ -225,7 +227,9 @@ def run_part(ctx, pym):
                         ns = rng.choice([5, 9, 9, None])
                     add_case(grid, ax, sg, ns, spelling)
 
+    t_gen = time.time()
     failing, err = vlib.run_cases(ctx, 'overhang', HEADER, checks, chunk=12)
+    ctx.extra['overhang_seconds'] = dict(generate=round(t_gen - t_start, 1), coq_cases=round(time.time() - t_gen, 1), cases=len(checks))
     ctx.obligation('correspondence:OverhangFilter case files evaluated', 'correspondence', not err, err)
     ctx.obligation('correspondence:OverhangFilter model sensitivity sweep == implementation; <w, tangent v> == <g, v>',
                    'correspondence', not failing and not err, str(failing[:10]))
